@@ -320,7 +320,7 @@ class C18:
         from checks.c03 import C03
 
         LEX = ["![", "$(", "$[", "!(", "@(", "@$(", ")", "]", "}", "{", "${", "'", '"', "'''", "\\", "\n", " ", " ", ";", "&&", "||", "|", "&", ">", ">>", "<", "2>", "and", "or", "echo", "ls", "x", "-l", "--k=v", "*", "~", "$HOME", "$", "@", "!", "r'", "p'", "f'", "#", "=", "a/b", "cd"]
-        for i in range(sh["fuzz"]):
+        for i in harness.budgeted(range(sh["fuzz"]), rec):
             k = rng.random()
             if k < 0.5:
                 t = "".join(rng.choice(LEX) + rng.choice(["", " "]) for _ in range(rng.randint(1, 14)))
